@@ -1,5 +1,7 @@
 import JSight.Ast
 import JSight.LoaderProofs
+import JSight.LoaderTreeMirrors
+import JSight.LoaderTreeDup
 /-!
 # C16 — GetAST mirrors the schema text: the decision logic that is a theorem
 
@@ -7,8 +9,15 @@ import JSight.LoaderProofs
   explicit `type` rule, then `precision` (decimal), then the JSON kind of the example.
 * `C16_rules_order`: the AST lists the rules in the order of the constraint map (insertion order = the
   order written, C19), with `or` in place and the synthetic `types` entry hidden.
-Text → node tree (scanner + loader) is not modelled: the whole `GetAST()` output is compared with the
-AST computed from the generator's abstract schema (harness `c16-ast`).
+* `C16_text_mirrors_tree`: text → node tree for schemas that are plain JSON (no annotations): scanner model +
+  loader model (`loadText`, tied by `loader-diff` against the real `GetAST`) build exactly one node per value
+  of the text, numbered in source order (`nodesOf`): kind of the value, parent, children in source order,
+  object keys in source order with the key tokens' spans, literal values with the literal tokens' spans, no
+  rules, no comment — for every value tree, any depth / width / layout incl. line breaks, provided the keys of
+  each object are pairwise distinct after decoding. `C16_text_duplicate_key`: otherwise error 402 at the first
+  key (in source order) that repeats an earlier key of its object. `C16_text_total`: one of the two.
+With annotations, the whole `GetAST()` output is compared with the AST computed from the generator's abstract
+schema (harness `c16-ast`) and with the loader model (`loader-diff`).
 -/
 namespace Props.C16
 open Ast OMap
@@ -94,5 +103,26 @@ theorem C16_rule_needs_exactly_one_node (src : Array UInt8) (st : Loader.St) (e 
 example : schemaType [.other "min", .type "decimal", .precision] "float" = "decimal" := by decide
 example : schemaType [.other "min", .or, .typesList, .type "mixed"] "integer" = "mixed" := by decide
 example : (collectRules [.other "min", .or, .typesList, .other "nullable"]).map (·.1) = ["min", "or", "nullable"] := by decide
+
+/-! ### text → node tree for plain-JSON schemas -/
+open SchemaScan in
+theorem C16_text_mirrors_tree (v : Tree) (hv : v.Valid) (ws0 ws1 : List Cls)
+    (h0 : SchemaScan.IsWs ws0) (h1 : SchemaScan.IsWs ws1)
+    (bs : List UInt8) (hbs : bs.map SchemaScan.classify = ws0 ++ (v.render ++ ws1))
+    (hd : Loader.KeysDistinct bs.toArray ws0.length v) :
+    ∃ st, Loader.loadText bs = .ok st ∧ st.root = some 0 ∧ st.nodes.toList = Loader.nodesOf none 0 ws0.length v :=
+  Loader.C16_loadText_mirrors_tree v hv ws0 ws1 h0 h1 bs hbs hd
+
+open SchemaScan in
+theorem C16_text_duplicate_key (v : Tree) (hv : v.Valid) (ws0 ws1 : List Cls)
+    (h0 : SchemaScan.IsWs ws0) (h1 : SchemaScan.IsWs ws1)
+    (bs : List UInt8) (hbs : bs.map SchemaScan.classify = ws0 ++ (v.render ++ ws1)) (p : Nat)
+    (hd : Loader.DupAt bs.toArray p ws0.length v) :
+    Loader.loadText bs = .error (Loader.showLErr (.duplicateKey p)) :=
+  Loader.C16_loadText_duplicate_key v hv ws0 ws1 h0 h1 bs hbs p hd
+
+/-- every plain-JSON text either loads into the mirror of its tree or has a duplicate key -/
+theorem C16_text_total (src : Array UInt8) (v : SchemaScan.Tree) (o : Nat) :
+    Loader.KeysDistinct src o v ∨ ∃ p, Loader.DupAt src p o v := Loader.keys_dichotomy src v o
 
 end Props.C16
